@@ -287,7 +287,7 @@ class Pow(OpDef):
         return [{"a": [2], "n": "tensor"}, {"a": [2], "n": "str"}]
 
     def smooth_at_zero(self, args):
-        return isinstance(args["n"], (int, float)) and args["n"] >= 1
+        return isinstance(args["n"], (int, float)) and (args["n"] >= 1 or args["n"] == 0)
 
     def inputs(self, args):
         n = args["n"]
@@ -331,9 +331,12 @@ class RPow(OpDef):
             for s in ([(3,)] if tier == "quick" else [(), (3,), (2, 2)]):
                 out.append({"a": L(s), "base": b})
         out.append({"a": [2], "base": BASES[0], "np": True})
+        out.append({"a": [2], "base": 0, "xr": True})          # 0 ** x is the constant 0 on x > 0 (extended-real run)
         return out
 
     def inputs(self, args):
+        if args["base"] == 0:
+            return [Inp("a", args["a"], lo=0, lo_strict=True)]
         return [Inp("a", args["a"])]
 
     def forward(self, args, ts, extra):
@@ -341,6 +344,10 @@ class RPow(OpDef):
 
     def reference(self, args, xs, extra):
         o = objarr(xs[0].shape)
+        if args["base"] == 0:
+            for idx in np.ndindex(*xs[0].shape):
+                o[idx] = xs[0][idx] * 0
+            return o
         ln = float(np.log(args["base"]))
         for idx in np.ndindex(*xs[0].shape):
             x = xs[0][idx]
